@@ -22,6 +22,7 @@ const (
 	BiasSnapshotRace
 	BiasRestartApplied0
 	BiasBatchedConf
+	BiasSlowApplier
 	numBias
 )
 
@@ -30,7 +31,7 @@ var BiasNames = [numBias]string{
 	"none", "figure8", "split_vote_storm", "partitioned_ex_leader",
 	"stale_candidate_longer_older_log", "removed_node_campaigns",
 	"joint_disjoint_majorities", "snapshot_vs_appends", "restart_applied0",
-	"batched_conf_changes_disjoint_majorities",
+	"batched_conf_changes_disjoint_majorities", "slow_applier_campaigns_during_membership_change",
 }
 
 // SchedConfig is everything that determines one schedule. It is a pure
@@ -138,6 +139,16 @@ func DeriveConfig(seed int64, idx, events int) SchedConfig {
 		c.Voters = 3
 		c.Learner = false
 		c.CheckQuorum = false
+	case BiasSlowApplier:
+		if !lateOK {
+			c.BiasAt = early
+		}
+		// paged applies: one entry per Ready, so that applying lags behind committing
+		c.Voters = 3
+		c.Learner = false
+		c.CheckQuorum = false
+		c.PreVote = false
+		c.MaxSizePerMsg = 64
 	case BiasSnapshotRace, BiasRestartApplied0:
 		if c.Voters < 2 {
 			c.Voters = 3
